@@ -16,6 +16,8 @@ from pyvc import sorts as S
 def declare(reg):
     S.declare_record('AbsStr', [('n', 'int'), ('last', 'int')])
     S.declare_record('PosLine', [('startpos', 'int'), ('lineno', 'int'), ('length', 'int')])
+    S.declare_record('LineIndexInfo', [('filename', 'Val'), ('line', 'int')])
+    S.declare_record('LineInfo', [('source', 'Val'), ('line', 'int'), ('col', 'int'), ('start', 'int'), ('end', 'int'), ('text', 'str')])
     S.declare_record('TLConfig', [('comments', 'Val'), ('eol_comments', 'Val')])
     S.declare_record('TLInput', [
         ('ignorecase', 'bool'), ('nameguard', 'bool'), ('_namechar_set', 'strset'),
@@ -109,6 +111,14 @@ def declare(reg):
     reg.classes['LCursor'] = {'mro': ['tatsu/input/textlines.py:TextLinesCursor'], 'fields': {'pos': 'int', '_input': 'LInput'},
                               'wf': ['0 <= self.pos', 'self.pos <= self._input.textlen',
                                      'len(self._input.line_cache) == 0 or len(self._input.line_cache) == self._input.textlen + 1']}
+    # the text object with everything lineinfo() reads.  Ghosts of the line structure are passed by the contract.
+    reg.classes['LInput2'] = {'mro': ['tatsu/input/textlines.py:TextLines'],
+                              'fields': {'line_cache': 'arrlist[PosLine]', 'line_index': 'arrlist[LineIndexInfo]',
+                                         'textstr': 'str', 'len': 'int', 'source': 'Val'}}  # len, source: properties read as fields
+    reg.classes['LCursor2'] = {'mro': ['tatsu/input/textlines.py:TextLinesCursor'], 'fields': {'pos': 'int', '_input': 'LInput2'},
+                               'wf': ['0 <= self.pos', 'self.pos <= self._input.len', 'len(self._input.textstr) == self._input.len']}
+    reg.classes['LineInfo'] = {'mro': ['tatsu/input/infos.py:LineInfo'], 'isa': ['LineInfo']}
+    reg.classes['LineIndexInfo'] = {'mro': ['tatsu/input/infos.py:LineIndexInfo'], 'isa': ['LineIndexInfo']}
     reg.classes['Cursor'] = {
         'mro': ['tatsu/input/textlines.py:TextLinesCursor'],
         'wf': ['self.len == len(self.textstr)', '0 <= self.pos', 'self.pos <= self.len', 'self._namechars == self.input._namechar_set'],
@@ -146,4 +156,22 @@ def _build_acursor(f):
     return c
 
 
-BUILDERS = {'ACursor': _build_acursor}
+def _build_lcursor2(f):
+    # the line cache and index are re-derived from the text by the real constructor
+    from tatsu.input.textlines import TextLines
+    c = TextLines(f['_input'][2]['textstr']).newcursor()
+    c.pos = f['pos']
+    return c
+
+
+def _ghosts_lineinfo(args):
+    inp = args['self']._input
+    starts = [0]
+    for ln in inp.lines:
+        starts.append(starts[-1] + len(ln))
+    lineof = [k for k, ln in enumerate(inp.lines) for _ in ln]
+    return {'starts': starts, 'lineof': lineof, 'nl': len(inp.lines), 'terminated': inp.textstr[-1:] in ('\r', '\n')}
+
+
+BUILDERS = {'ACursor': _build_acursor, 'LCursor2': _build_lcursor2,
+            'ghosts:tatsu/input/textlines.py:TextLinesCursor.lineinfo': _ghosts_lineinfo}
